@@ -1,5 +1,6 @@
 import IpcModel.Frag
 import IpcModel.Wire
+import IpcModel.SideTable
 /-! Line-protocol driver: one request per line on stdin, one canonical answer per line on stdout.
 Imports model files only (no Mathlib/Std), so it links as a native executable. -/
 open Frag
@@ -201,6 +202,59 @@ def cmdDec (legacy : Bool) (toks : List String) : String :=
     | _, _, _ => "bad-value"
   | _ => "bad-request"
 
+/-! ### serialisation programs (C14) -/
+partial def parseNodes : Nat → List String → Option (List Side.Node × List String)
+  | 0, r => some ([], r)
+  | k+1, r =>
+    (match r with
+     | "data" :: b :: r' => b.toNat?.map fun x => (Side.Node.data x, r')
+     | "snd" :: c :: r' => c.toNat?.map fun x => (Side.Node.sender x, r')
+     | "rcv" :: c :: r' => c.toNat?.map fun x => (Side.Node.receiver x, r')
+     | "shm" :: c :: r' => c.toNat?.map fun x => (Side.Node.shm x, r')
+     | "eshm" :: r' => some (Side.Node.emptyShm, r')
+     | "fail" :: r' => some (Side.Node.fail, r')
+     | "nested" :: tx :: n :: r' =>
+       match tx.toNat?, n.toNat? with
+       | some t, some m => (parseNodes m r').map fun (vs, r'') => (Side.Node.nested t vs, r'')
+       | _, _ => none
+     | _ => none).bind fun (nd, r') => (parseNodes k r').map fun (nds, r'') => (nd :: nds, r'')
+
+def attText : Wire.Att → String
+  | .snd c => s!"s{c}" | .rcv c => s!"r{c}"
+
+def msgText (m : Side.OsMsg) : String :=
+  let a := if m.chans.isEmpty then "-" else ",".intercalate (m.chans.map attText)
+  let sh := if m.shms.isEmpty then "-" else ",".intercalate (m.shms.map toString)
+  s!"{m.chan}:{hexStr m.bytes}:{a}:{sh}"
+
+/-- `side legacy=0 osfail=1,3 | send <tx> <n> nodes… | send …` : top-level sends on one thread, in order -/
+def cmdSide (toks : List String) : String :=
+  match splitBar toks with
+  | hdr :: sends =>
+    let legacy := (kv hdr "legacy").getD "0" = "1"
+    let osfail := natList ((kv hdr "osfail").getD "")
+    let osOk := fun c => !(osfail.contains c)
+    let step := fun (acc : Option (Side.Tls × Side.Eff × List Bool)) (snd : List String) =>
+      match acc, snd with
+      | some (tls, eff, rs), "send" :: tx :: n :: r =>
+        match tx.toNat?, n.toNat? with
+        | some t, some k =>
+          match parseNodes k r with
+          | some (v, []) =>
+            match Side.ipcSend ⟨legacy⟩ osOk t v tls eff with
+            | (ok, tls', eff') => some (tls', eff', rs ++ [ok])
+          | _ => none
+        | _, _ => none
+      | _, _ => none
+    match sends.foldl step (some (⟨[], []⟩, Side.Eff.empty, [])) with
+    | none => "bad-request"
+    | some (_, eff, rs) =>
+      let b := fun (x : Bool) => if x then "ok" else "err"
+      let txs := (eff.sent.map (·.chan)).eraseDups.mergeSort
+      let grouped := txs.flatMap fun t => eff.sent.filter (·.chan == t)
+      s!"res={",".intercalate (rs.map b)} inner={",".intercalate (eff.results.map b)} msgs={";".intercalate (grouped.map msgText)}"
+  | _ => "bad-request"
+
 /-- all fault patterns (ENOBUFS or not) of length k, as numbers 0 .. 2^k-1 -/
 def patOf (k m : Nat) : List Fault := (List.range k).map fun i => if (m >>> i) % 2 = 1 then .enobufs else .none
 
@@ -228,6 +282,7 @@ def answer (line : String) : String :=
   | "frag" :: rest => cmdFrag rest
   | "recv" :: rest => cmdRecv rest
   | "searchfrag" :: rest => cmdSearchFrag rest
+  | "side" :: rest => cmdSide rest
   | "enc" :: rest => cmdEnc rest
   | "rt" :: rest => cmdRt rest
   | "dec" :: rest => cmdDec false rest
